@@ -64,6 +64,21 @@ register('C15',
          'DESIGN.md 5/C15')
 
 
+register('C19',
+         'NTheory.tla: TLC checks the transcribed Newton iterations (2-adic inverse, inverse square root, four square roots) '
+         'against brute-force definitions for all n < 2^K, k <= K (K = 8 quick, 10 thorough), continued-fraction convergents '
+         'against the definitional value of the finite continued fraction, rounded division, Irwin-Hall numerators on the grid of '
+         'quarters. Echelon.tla transcribes echelon_form/solve_right with exact rationals; TLC proves the returned vector satisfies '
+         'the system on all 3x3 systems over -1..1 (and all 59049 5x4 systems of a unit-like vocabulary in the thorough tier) and '
+         'refutes the pinned row move and the pinned rounding offset (design-level counterexamples D4, D9). All those inputs plus '
+         'sampled systems to 8x5, upper-triangular systems, pseudo-averages (all lifts enumerated by TLC), sieve, and random '
+         '1..4096-bit operands are replayed into the real functions and every record is validated by NTheoryTrace.tla.',
+         'Trusted: TLC; Python int/Fraction for operands beyond 32 bits (events *_big); mpmath monitor for Igamc/NormalCdf/'
+         'BinomialCdf/CombinedPValue/UniformSumCdf(real x)/Bias (aux, not model checking). Small-root finders not driven yet.',
+         'TLA+ specs (NTheory.tla, Echelon.tla) model-checked with TLC + TLC-enumerated inputs replayed + TLC trace validation',
+         'DESIGN.md 5/C19')
+
+
 def main():
   props = [json.loads(l)['id'] for l in open(os.path.join(HOME, 'properties.jsonl'))]
   checks = []
